@@ -312,3 +312,99 @@ where
     }
     panic!("operator chain did not terminate");
 }
+
+/// Drive the chain of a two-input block: every batch of both sides is queued up front (one
+/// upstream replica per side unless `left_replicas` says otherwise), so the arrival interleaving
+/// is decided by the answers of the two-way select - which the explorer enumerates.
+pub fn drive_binary<L, R, Op>(
+    vc: renoir::verif::VerifChain<Op>,
+    left: Vec<Vec<Vec<El<L>>>>,
+    right: Vec<Vec<Vec<El<R>>>>,
+) -> Vec<El<Op::Out>>
+where
+    L: renoir::operator::ExchangeData,
+    R: renoir::operator::ExchangeData,
+    Op: Operator,
+{
+    let mut chain = vc.chain;
+    let mut tb = testkit::Testbed::new(vc.block_id, 0, 1);
+    let fl = tb.upstream::<L>(vc.prev_blocks[0], left.len() as u64);
+    let fr = tb.upstream::<R>(vc.prev_blocks[1], right.len() as u64);
+    tb.setup(&mut chain, BatchMode::fixed(1024));
+    // round-robin over the replicas of a side, so that their batches interleave in the channel
+    fn feed<T: renoir::operator::ExchangeData>(f: &[testkit::Feeder<T>], batches: Vec<Vec<Vec<El<T>>>>) {
+        let mx = batches.iter().map(|b| b.len()).max().unwrap_or(0);
+        let mut its: Vec<std::vec::IntoIter<Vec<El<T>>>> = batches.into_iter().map(|b| b.into_iter()).collect();
+        for _ in 0..mx {
+            for (r, it) in its.iter_mut().enumerate() {
+                if let Some(b) = it.next() {
+                    f[r].send(b);
+                }
+            }
+        }
+    }
+    feed(&fl, left);
+    feed(&fr, right);
+    drop(fl);
+    drop(fr);
+    let mut out = vec![];
+    for _ in 0..100_000 {
+        let e = chain.next();
+        let t = matches!(e, StreamElement::Terminate);
+        out.push(e);
+        if t {
+            return out;
+        }
+    }
+    panic!("operator chain did not terminate");
+}
+
+/// One element per batch; the end-of-iteration and termination markers in their own batches.
+pub fn singleton_batches<T: Clone>(items: &[El<T>]) -> Vec<Vec<El<T>>> {
+    let mut v: Vec<Vec<El<T>>> = items.iter().map(|e| vec![e.clone()]).collect();
+    v.push(vec![StreamElement::FlushAndRestart]);
+    v.push(vec![StreamElement::Terminate]);
+    v
+}
+
+/// A scenario over the explorer: `run` is executed once per combination of select answers.
+pub fn select_scenario(
+    name: String,
+    descr: String,
+    run: Arc<dyn Fn() -> Option<Fail> + Send + Sync>,
+) -> Scenario {
+    let body: crate::rt::Body = Arc::new(move || {
+        if let Some(f) = run() {
+            log(Ev::Text("fail-sig", f.sig));
+            log(Ev::Text("fail-msg", f.msg));
+        }
+    });
+    let check: Check = Arc::new(|r| {
+        match &r.status {
+            Status::Done => {}
+            Status::BodyPanic(p) => return Err(Fail::new("panic", format!("panic: {p}"))),
+            Status::Deadlock(b) => return Err(Fail::new("blocked", format!("operator blocked waiting for input that will never come: {b}"))),
+            other => return Err(Fail::new("abnormal", format!("{:?}", other))),
+        }
+        match logged_fails(&r.log).into_iter().next() {
+            Some(f) => Err(f),
+            None => Ok(hash_of(&r.trace)),
+        }
+    });
+    Scenario {
+        name,
+        descr,
+        params: EnvParams {
+            channel_capacity: 64,
+            free_kinds: vec![crate::rt::Kind::Driver, crate::rt::Kind::Select],
+            ..Default::default()
+        },
+        body,
+        check,
+        bound: 0,
+        orders: vec![Order::RunAsc],
+        max_execs: 0,
+        shards: 1,
+        nontrivial: true,
+    }
+}
